@@ -624,3 +624,30 @@ func (c *Ctx) checkDateForm(rel, E, LOC string, tsForm linForm) {
 		c.check(ok && n > 0, "C07.date-form", rel+".UseNodeMode", fn.Pos(), "node width in {8,9,10}: low bits < 2^22 < 10^7", "the node-width option can store a width other than 8, 9 or 10: the low bits no longer fit the 7 digits of the date form")
 	}
 }
+
+// factsImplyGE0 reports whether one of the branch facts, read as a linear inequality e >= 0, entails target >= 0
+// (target = e + k with a constant k >= 0). Single-fact implication only: sound, not complete.
+func factsImplyGE0(facts []Fact, target linForm) bool {
+	for _, f := range facts {
+		d := lf(f.X).add(lf(f.Y), -1)
+		var es []linForm
+		switch f.Op {
+		case token.GEQ:
+			es = []linForm{d}
+		case token.GTR:
+			es = []linForm{d.add(lfConst(1), -1)}
+		case token.LEQ:
+			es = []linForm{d.scale(big.NewInt(-1))}
+		case token.LSS:
+			es = []linForm{d.scale(big.NewInt(-1)).add(lfConst(1), -1)}
+		case token.EQL:
+			es = []linForm{d, d.scale(big.NewInt(-1))}
+		}
+		for _, e := range es {
+			if k, isC := target.add(e, -1).isConst(); isC && k.Sign() >= 0 {
+				return true
+			}
+		}
+	}
+	return false
+}
